@@ -185,16 +185,31 @@ def run(ctx, prog, res):
                 ws = wrappers(t2, [])
                 ok = all(w in ("unwrap_or", "expect", "unwrap", "min") for w in ws)
     r3.check(ok, {"fn": st.id, **detail}, "C03.R3:window", "state does not evaluate a non-empty window [instant, instant + positive constant)", lib.where_of(st))
-    rets = flow.origin_calls(st, 0)
-    ok = len(rets) == 1 and flow.call_name(rets[0]).endswith("Option::<T>::unwrap_or") and flow.const_variants(st, rets[0]["args"][1]) == [KIND + "::Closed"]
-    if ok:
-        maps = [c for c in flow.origin_calls(st, rets[0]["args"][0]) if flow.call_name(c).endswith("Option::<T>::map")]
-        ok = len(maps) == 1
-        if ok:
-            cl = prog.fns.get(flow.closure_of_operand(st, maps[0]["args"][1]))
-            nf = flow.nearest_field(cl, 0) if cl else None
-            ok = nf is not None and nf[0] == DTR and nf[2] == "kind"
-            nx = [c for c in flow.origin_calls(st, maps[0]["args"][0])]
-            ok = ok and len(nx) == 1 and flow.call_names(nx[0])[0] == "core::iter::traits::iterator::Iterator::next" and any(c is ir[0] for c in flow.origin_calls(st, nx[0]["args"][0]))
+    # result: the kind of the first interval of that stream, or the constant Closed when it is empty -
+    # whatever combinator spells it (map + unwrap_or, map_or, unwrap_or_default, match)
+    bodies = [prog.fns[x] for x in prog.with_closures(st.id)]
+    kinds = set()
+    for b_ in bodies:
+        for bb_, blk in b_.live_blocks():
+            for s_ in blk["stmts"]:
+                if s_["k"] == "assign":
+                    for o_ in ([s_["rv"].get("op")] if s_["rv"]["k"] == "use" else s_["rv"].get("ops", [])):
+                        if isinstance(o_, dict) and o_.get("k") == "const" and o_.get("variant") and KIND in (o_.get("ty") or ""):
+                            kinds.add(o_["variant"])
+            t_ = blk["term"]
+            if t_["k"] == "call":
+                for o_ in t_["args"]:
+                    for v_ in flow.const_variants(b_, o_):
+                        if v_.startswith(KIND + "::"):
+                            kinds.add(v_.split("::")[-1])
+    default_ok = kinds == {"Closed"}
+    if not kinds and any(flow.call_name(t_).endswith("unwrap_or_default") for b_ in bodies for _, t_ in b_.calls()):
+        dflt = prog.impl_method_one("core::default::Default", "default", self_adt=KIND)
+        default_ok = flow.shape(dflt, 0) == "RuleKind::Closed{}"
+    reads_kind = any((flow.nearest_field(b_, 0) or (None, None, None))[0] == DTR and (flow.nearest_field(b_, 0) or (None, None, None))[2] == "kind" for b_ in bodies)
+    nexts = [t_ for _, t_ in st.calls() if flow.call_names(t_)[0] == "core::iter::traits::iterator::Iterator::next"]
+    first = len(nexts) == 1 and len(ir) == 1 and any(c is ir[0] for c in flow.origin_calls(st, nexts[0]["args"][0]))
+    other_iter = [flow.call_names(t_)[0].split("::")[-1] for _, t_ in st.calls() if flow.call_names(t_)[0].startswith("core::iter::traits::iterator::Iterator::") and flow.call_names(t_)[0].split("::")[-1] not in ("next",)]
+    ok = default_ok and reads_kind and first and not other_iter
     r3.check(ok, {"fn": st.id, "result": "first interval's kind, default RuleKind::Closed"}, "C03.R3:result", "state does not return the first interval's kind with RuleKind::Closed as default", lib.where_of(st))
     r3.floor(2)
